@@ -71,6 +71,7 @@ class RSeq:
         self.arr = arr
         self.contig = None          # (base RSeq with .arr or None, offset term) for contiguous views
         self.valid_total = None
+        self.prov = None            # provenance used by the derived library lemmas (take_of / unique_of / isin_of)
 
     def conc_len(self):
         return conc_int(self.length)
@@ -93,6 +94,8 @@ def rseq(I, st, v, heap=None):
         if isinstance(o, SeqVal):
             r = RSeq(o.length, o.elem, o.kind, o.dtype, o.is_nd, o.is_f64, o.nanmask, getattr(o, "arr", None))
             r.valid_total = getattr(o, "valid_total", None)
+            r.prov = getattr(o, "prov", None)
+            r.src_id = v.id
             return r
         if isinstance(o, ViewVal):
             b = heap[o.base]
@@ -229,10 +232,33 @@ def _subterms(t, limit):
         yield z3.ForAll([z3.Int("__big")], z3.Int("__big") == z3.Int("__big"))   # treat huge formulas as non-QF
 
 
+_ENT_CACHE = {}
+
+
 def entails(st, c):
-    """pc (its quantifier-free part) => c ?   (sound under-approximation of entailment)"""
+    """pc => c ?   (sound under-approximation of entailment: quick solver calls, a failure means "not known")"""
+    key = (tuple(h.get_id() for h in st.pc), c.get_id())       # the whole path condition identifies the context
+    hit = _ENT_CACHE.get(key)
+    if hit is not None:
+        return hit[0]
+    r = _entails(st, c)
+    if len(_ENT_CACHE) > 20000:
+        _ENT_CACHE.clear()
+    # z3 AST ids are unique among *live* terms only: the cache entry keeps the terms alive so that an id cannot be recycled
+    _ENT_CACHE[key] = (r, c, list(st.pc))
+    return r
+
+
+def _has_select(c):
+    for x in _subterms(c, 200):
+        if z3.is_app(x) and x.decl().kind() == z3.Z3_OP_SELECT:
+            return True
+    return False
+
+
+def _entails(st, c):
     solver = z3.Solver()
-    solver.set("timeout", 250)
+    solver.set("timeout", 150)
     skipped = False
     for h in st.pc:
         if _qf(h):
@@ -242,11 +268,11 @@ def entails(st, c):
     solver.add(z3.Not(c))
     if solver.check() == z3.unsat:
         return True
-    if not skipped:
+    if not skipped or not _has_select(c):
         return False
     # second attempt with the quantified hypotheses as well (bounds of index arrays usually come from them)
     solver = z3.Solver()
-    solver.set("timeout", 500)
+    solver.set("timeout", 400)
     for h in st.pc:
         if len(h.sexpr()) < 3000:
             solver.add(h)
@@ -573,7 +599,9 @@ def gather(I, st, rs, irs, node):
     res = list(excs)
     if ok is not None:
         el, ie = rs.elem, irs.elem
-        res.append((ok, new_seq(ok, "ndarray", rs.dtype, irs.length, lambda i, el=el, ie=ie, L=L: el(norm_index(to_int(ie(i)), L)))))
+        ref = new_seq(ok, "ndarray", rs.dtype, irs.length, lambda i, el=el, ie=ie, L=L: el(norm_index(to_int(ie(i)), L)))
+        ok.heap[ref.id].prov = ("take", rs, irs)
+        res.append((ok, ref))
     return res
 
 
@@ -1089,7 +1117,7 @@ def shape_of(I, st, v):
         return ("str",)
     if isinstance(v, TupV):
         return ("tup", tuple(shape_of(I, st, x) for x in v.items))
-    if isinstance(v, (FunV, ModV, DictV, AnyV)):
+    if isinstance(v, (FunV, ModV, DictV, AnyV)) or isinstance(v, tuple):
         return ("same", id(v))
     raise EngineError(f"shape of {v}")
 
